@@ -79,6 +79,7 @@ PRELUDE = ("let U := {| task_of := fun i => nth i [%s] 9; call_of := fun i => nt
 # again): only there may the in-memory backend differ from the reference, and only the way the index model predicts.
 RELEASE_KEY = "mem-release-of-live-invocation-forgets-its-own-waits"
 FINDING_CLASSES = (1, 4)
+NESTED_KEY = "sqlite:nested-write-inside-open-transaction"
 IMPL_ONLY = ("svc", "q_svc")
 
 
@@ -196,17 +197,24 @@ def run_case_on(kind, case):
         _W["cache"].drop()
     im.reset()
     flat, _ = expand(case)
-    out = []
-    for op in flat:
+    out, nested = [], []
+    _W["cache"].pop_events()
+    for j, op in enumerate(flat):
         out.append(im.do(op))
         if not op[0].startswith("q_"):
             im.flush()
-    return out
+        if kind == "sqlite":
+            ev = _W["cache"].pop_events()
+            if ev:
+                nested.append((j, ev))
+    return out, nested
 
 
 def _worker(args):
     idx, case = args
-    return idx, run_case_on("mem", case), run_case_on("sqlite", case)
+    m, _ = run_case_on("mem", case)
+    s, nested = run_case_on("sqlite", case)
+    return idx, m, s, nested
 
 
 def run_impl(cases, scratch):
@@ -216,7 +224,7 @@ def run_impl(cases, scratch):
     ctxm = mp.get_context("fork")
     with ctxm.Pool(n, initializer=_worker_init, initargs=(scratch,)) as pool:
         res = pool.map(_worker, list(enumerate(cases)), chunksize=max(1, len(cases) // (n * 4)))
-    return {i: (m, s) for i, m, s in res}
+    return {i: (m, s, nested) for i, m, s, nested in res}
 
 
 # ---------------------------------------------------------------- generators
@@ -410,7 +418,8 @@ RELEASE_EVENTS = [("wait", 1, [0]), ("wait", 2, [1]), ("set", 0, "CONCURRENCY_CO
 
 def gen_cases(ctx: Ctx):
     cases = []
-    for sc in interleavings([("reg", [0, 1, 2])], WAIT_EVENTS) + interleavings([("reg", [0, 1, 2])], RELEASE_EVENTS):
+    pre = [("reg", [0, 1, 2, 3]), ("set", 3, "CONCURRENCY_CONTROLLED_FINAL", "zz")]      # a second invocation that becomes due
+    for sc in interleavings(pre, WAIT_EVENTS) + interleavings(pre, RELEASE_EVENTS):
         cases.append(("interleaving", sc))
     for cls, w in WITNESSES.items():
         cases.append(("witness", w))
@@ -545,8 +554,19 @@ def main(ctx: Ctx) -> int:
                    "mem_follows_reference_in_finding_zone": 0}
     kinds: dict = {}
     for n, ((kind, case), val) in enumerate(zip(cases, vals)):
-        mem, sql = impl_res[n]
+        mem, sql, nested = impl_res[n]
         kinds[kind] = kinds.get(kind, 0) + 1
+        if nested:
+            flat, owner = expand(case)
+            j, ev = nested[0]
+            stats["nested_writes"] = stats.get("nested_writes", 0) + len(nested)
+            ctx.violation(NESTED_KEY,
+                          f"SQLite backend: during {flat[j]} a second connection to the same database file writes ({ev[0]!r}) while the "
+                          "operation's own connection holds an open write transaction; on real separate connections the inner write blocks on "
+                          "the outer lock until the 30 s busy timeout (x retries) and fails with 'database is locked', nothing of the operation "
+                          "is committed (the harness shares one connection per file, so it only records the nesting and does not wait)",
+                          {"ops": case[:owner[j] + 1], "probe": ["q_count", None, []], "backend": "sqlite", "nested_writes": ev,
+                           "observed": "nested write inside an open write transaction", "expected": "no nested write"})
         check_case(ctx, kind, case, mem, sql, val, stats)
         if kind == "guarded" and len(ctx.coverage["samples"]) < 3:
             ctx.sample({"kind": kind, "ops": case[:10], "length": len(case)})
@@ -566,7 +586,8 @@ def main(ctx: Ctx) -> int:
         "pages are compared as their timestamp sequences (order among equal timestamps is open), get_blocking_invocations(n) as 'any n of the candidates'",
         "history entries are written by pynenc's own writer threads; the harness joins them after every operation",
     ]
-    ctx.trusted += ["harness/c16_driver.py:ConnCache (connection reuse per thread+file; SQL text, PRAGMAs, BEGIN IMMEDIATE, commit/rollback are pynenc's own)",
+    ctx.trusted += ["harness/c16_driver.py:ConnCache (connection reuse per thread+file; SQL text, PRAGMAs, BEGIN IMMEDIATE, commit/rollback are pynenc's own; "
+                    "a write through a connection requested inside another user's open write transaction is reported as a violation instead of waiting for the busy timeout)",
                     "SQLite engine; harness/vclock.py"]
     return ctx.finish(
         rule="one case = one operation sequence run from an empty application on MemX, SQLiteX, the index model and the relational model, "
@@ -590,6 +611,8 @@ def replay(ctx: Ctx, path: str) -> int:
                 r = im.do(op)
                 im.flush()
                 print(f"{kind:6s} {op!r} -> {r}")
+            if kind == "sqlite" and _W["cache"].events:
+                print(f"sqlite nested writes inside an open write transaction: {_W['cache'].pop_events()}")
             print(f"{kind:6s} probe {probe!r} -> {im.do(probe)}    (reference model: {rp.get('expected')}; recorded on {rp.get('backend')}: {rp.get('observed')})")
         _W["cache"].uninstall()
         _W["clock"].uninstall()
